@@ -344,7 +344,7 @@ pub fn gen_tag_file(r: &mut StdRng) -> String {
                 }
             }
             1 => ls.push(format!("{ws}-TXTPP#run printf '{}'", ["x", "x\\n", "a\\nb", "a\\r\\nb\\r\\n", "", "T1"][r.gen_range(0..6)])),
-            2 => ls.push(format!("{ws}-TXTPP#include {}", ["static.txt", "nonl.txt", "crlf.txt"][r.gen_range(0..3)])),
+            2 => ls.push(format!("{ws}-TXTPP#include {}", ["static.txt", "nonl.txt", "crlf.txt", "dep.txt", "dep.txt"][r.gen_range(0..5)])),
             _ => ls.push(format!("{ws}-TXTPP#run echo {tag}")),
         }
         let u = r.gen_range(0..100);
@@ -374,6 +374,8 @@ fn tag_project(src: &str, trailing: bool) -> ProjectCase {
     files.insert("static.txt".into(), b"s1\ns2\n".to_vec());
     files.insert("nonl.txt".into(), b"nonl".to_vec());
     files.insert("crlf.txt".into(), b"c1\r\nc2\r\n".to_vec());
+    // a generated dependency: a file with a tag pending when it reaches `include dep.txt` is processed in two passes
+    files.insert("dep.txt.txtpp".into(), b"dep line\n".to_vec());
     let mut c = ProjectCase::simple(files);
     c.trailing = trailing;
     // the unused-tag check and injection must not depend on the build flavour
